@@ -82,8 +82,11 @@ Section ResProofs.
       destruct (ty_of_col c); cbn; discriminate.
     - destruct (inferable_ty t); [|cbn; discriminate]. rewrite elem_r_ok. cbn [rok].
       specialize (IHt (elem s)). destruct (infer_st t (elem s)). exact IHt.
-    - rewrite elem_r_ok. cbn [rok]. destruct (cut_byte 44 (elem s)) as [[kt vt] hc].
-      destruct (negb hc || mem_byte 44 vt); [cbn; discriminate|].
+    - destruct (inferable_ty t); [|cbn; discriminate]. rewrite elem_r_ok. cbn [rok].
+      specialize (IHt (elem s)). destruct (infer_st t (elem s)). exact IHt.
+    - destruct (inferable_ty t); [|cbn; discriminate]. rewrite elem_r_ok. cbn [rok].
+      specialize (IHt (elem s)). destruct (infer_st t (elem s)). exact IHt.
+    - rewrite elem_r_ok. cbn [rok]. destruct (split_type_args (elem s)) as [|kt [|vt [|x l]]]; try (cbn; discriminate).
       assert (Hk : snd (if inferable_ty t1 then infer_st t1 (trim_space kt) else (t1, IOk)) <> ICrash)
         by (destruct (inferable_ty t1); [apply IHt1|cbn; discriminate]).
       destruct (if inferable_ty t1 then infer_st t1 (trim_space kt) else (t1, IOk)) as [k' ok].
@@ -275,7 +278,7 @@ Section ResProofs.
     | FDecode => exists name tstr s1 c1 ty', read_header v s = inl (name, tstr, s1) /\ (rt_name t = [] \/ rt_name t = name) /\
                   infer_tcol (rt_col t) tstr = (c1, IOk) /\ conflicts_b tstr (tcol_type c1) = false /\
                   tcol_ty c1 = Some ty' /\ dec_body b ty' nrows s1 = Err e /\
-                  t' = {| rt_name := name ; rt_col := set_data c1 (empty ty') |}
+                  t' = {| rt_name := name ; rt_col := set_data c1 (body_part b ty' nrows s1) |}
     | FBlock | FCount => False
     end.
 
@@ -334,12 +337,16 @@ Section ResProofs.
       + unfold auto_fresh. destruct (infer_auto s) as [ty'|]; intros Hx; inversion Hx; subst; [right; now exists ty'|now left].
   Qed.
 
-  (* in every failing step the target's contents are what they were, or an empty (reset / newly created) column -
-     never the data of another column *)
+  (* in every failing step the target's contents are what they were, or an empty (reset / newly created) column, or -
+     after a DecodeState / DecodeColumn error - what the column's own decoder had stored when it gave up, which is a
+     function of the target's type, the block's row count and the bytes [s1] directly behind the target's OWN column
+     header (model/DecPart.v): never the data of another column *)
   Corollary failing_target_contents b v nrows t s t' k e :
     bind_one b v nrows t s = (t', SFail k e) ->
     tcol_data (rt_col t') = tcol_data (rt_col t) \/
-    exists ty', tcol_ty (rt_col t') = Some ty' /\ tcol_data (rt_col t') = Some (empty ty').
+    (exists ty', tcol_ty (rt_col t') = Some ty' /\ tcol_data (rt_col t') = Some (empty ty')) \/
+    (exists ty' name tstr s1, read_header v s = inl (name, tstr, s1) /\ k = FDecode /\
+       tcol_ty (rt_col t') = Some ty' /\ tcol_data (rt_col t') = Some (body_part b ty' nrows s1)).
   Proof.
     intros H. apply bind_one_fail in H. destruct k; cbv beta iota delta [fail_reason] in H; try contradiction.
     - destruct H as [-> _]. now left.
@@ -347,9 +354,10 @@ Section ResProofs.
     - destruct H as [-> _]. now left.
     - destruct H as (name & tstr & s1 & c1 & _ & _ & _ & -> & Hd). now left.
     - destruct H as (name & tstr & s1 & c1 & _ & _ & Hi & _ & ->). cbn [rt_col].
-      now apply infer_tcol_data in Hi.
-    - destruct H as (name & tstr & s1 & c1 & ty' & _ & _ & _ & _ & Ht & _ & ->). cbn [rt_col].
-      right. exists ty'. destruct c1 as [t1 d1| |dt1 t1 d1]; cbn [tcol_ty] in Ht; [|discriminate|];
+      apply infer_tcol_data in Hi. destruct Hi as [Hi|Hi]; [now left|right; now left].
+    - destruct H as (name & tstr & s1 & c1 & ty' & Hh & _ & _ & _ & Ht & _ & ->). cbn [rt_col].
+      right. right. exists ty', name, tstr, s1. split; [exact Hh|]. split; [reflexivity|].
+      destruct c1 as [t1 d1| |dt1 t1 d1]; cbn [tcol_ty] in Ht; [|discriminate|];
         injection Ht as ->; cbn [tcol_ty tcol_data set_data]; now split.
   Qed.
 
